@@ -1255,7 +1255,8 @@ static const uint8_t *unmarshal_one_fiber(
 
 void janet_unmarshal_ensure(JanetMarshalContext *ctx, size_t size) {
     UnmarshalState *st = (UnmarshalState *)(ctx->u_state);
-    MARSH_EOS(st, ctx->data + size);
+    /* Compare sizes, not addresses: data + size wraps around for huge sizes */
+    if (size >= (size_t)(st->end - ctx->data)) janet_panic("unexpected end of source");
 }
 
 int32_t janet_unmarshal_int(JanetMarshalContext *ctx) {
